@@ -40,7 +40,7 @@ CONSTANTS MaxTx,      \* behaviour length
           Prices,     \* e.g. {1, 2, 3}
           KnownRefund,\* TRUE: search past the known findings (refund accounting; legacy gas of failed staking transactions before YouV4)
           Versions,   \* protocol versions to run under, subset of 1..5
-          AllFull,    \* TRUE: every class combination under every version; FALSE: under versions < 5 only those with the next nonce
+          AllFull,    \* TRUE: every class combination under every version; FALSE: under versions < 5 only ClsOK
           GenMode     \* "none" | "leaf"
 
 VARIABLES nonce, bal,    \* per sender
@@ -89,8 +89,11 @@ SeqCls == { C(1, "eq", "ample", "some", "acct", "none", 2),
             C(1, "eq", "below", "zero", "acct", "data", 1),
             C(1, "eq", "exact", "over1", "acct", "none", 1) }
 
-Cls == IF Alphabet = "full" THEN (IF ver = 5 \/ AllFull THEN FullCls ELSE { c \in FullCls : c.nc = "eq" })
-       ELSE IF Alphabet = "sig" THEN {} ELSE SeqCls
+Cls == IF Alphabet = "full" THEN FullCls ELSE IF Alphabet = "sig" THEN {} ELSE SeqCls
+\* under the older protocol versions the quick configuration keeps the classes with the next nonce that go to the staking
+\* module (every limit / value / payload / price / sender), and a thin slice of the others
+ClsOK(c) == \/ Alphabet # "full" \/ ver = 5 \/ AllFull
+            \/ c.nc = "eq" /\ (c.tp[1] = "staking" \/ (c.lim = "ample" /\ c.val = "zero"))
 
 \* ---------------------------------------------------------------- concretisation (the driver uses the same table)
 \* data sizes of the model's payloads (non-zero, zero bytes); the real payload sizes are logged by the driver
@@ -260,7 +263,7 @@ ApplyWith(t, c, Outs) ==
 
 ApplyConc(t, c) == ApplyWith(t, c, ModelOutcomes(t))
 
-Next == \/ \E c \in Cls : ApplyConc(Conc(c), c)
+Next == \/ \E c \in Cls : ClsOK(c) /\ ApplyConc(Conc(c), c)
         \/ Alphabet = "sig" /\ SigNext
 Spec == Init /\ [][Next]_vars
 
@@ -313,7 +316,7 @@ Leaf == /\ (GenMode = "leaf" /\ (Len(hist) = MaxTx \/ dead) /\ Len(hist) > 0) =>
                                                             seq |-> [i \in DOMAIN sig.res |-> sig.res[i].signer]]]))
         \* V sweep: every class, every network id, every V of the range
         /\ (GenMode = "vsweep" /\ hist = <<>> /\ ~sig.on /\ mode = "miner") =>
-              \A c \in { x \in SigCls : x.price = 1 }, n \in NetIds :
+              \A c \in { x \in SigCls : x.price = 1 /\ x.val = "zero" }, n \in NetIds :
                  PrintT("@@J " \o ToJson([kind |-> "B", h |-> [kind |-> "vsweep", tx |-> c, net |-> n,
                                                                vs |-> [i \in 1..(2 * n + 41) |-> i - 1]]]))
 View == <<nonce, bal, pool, gu, gr, mode, dead, last, ver, sig>>
